@@ -118,6 +118,9 @@ FUNCS = OrderedDict([
     ('conv2', lambda x: np.convolve(x, [.5, .5], 'valid')),
     ('cumsum', lambda x: x.cumsum()),
     ('first', lambda x: x[:1]),
+    # the dict form with keyword options: func1d=scale_shift, a=..., b=...
+    ('ss_2_1', lambda x: x * 2. + 1.),
+    ('ss_m1_3', lambda x: x * -1. + 3.),
 ])
 
 
